@@ -356,8 +356,80 @@ def deduction_obligations(ck, rule_prefix=''):
     return fn
 
 
+def _spec_leftover(records, errors, specifications):
+    """The statement of C08, written down independently of the code: records = {type: number of WARNING-level records}."""
+    waived, limits, blanket = set(), {}, None
+    for part in specifications:
+        for wtype, count in part:
+            if count is None:
+                waived.add(wtype)
+            elif wtype is None:
+                blanket = count if blanket is None else max(blanket, count)
+            else:
+                limits[wtype] = count if wtype not in limits else max(limits[wtype], count)
+    left = errors
+    rest = 0
+    for wtype, n in records.items():
+        if wtype in limits:
+            left += max(0, n - max(0, limits[wtype]))
+        elif wtype in waived:
+            continue
+        else:
+            rest += n
+    left += max(0, rest - max(0, blanket or 0))
+    return left
+
+
+def whole_function_table(ck):
+    """Interpret ignore_warnings_and_count as a whole (the checker's own evaluator; nothing of the repository runs) over a grid of record
+    multisets and -maxwarn specifications and compare with the statement."""
+    from .. import interp as ip
+    mod = ck.index.mod(LH)
+    fn = mod.func('ignore_warnings_and_count')
+    params = [a.arg for a in fn.args.args]
+    dflt = param_defaults(fn).get(params[2]) if len(params) > 2 else None
+    a_opts = [(), (('a', None),), (('a', -1),), (('a', 0),), (('a', 1),), (('a', 3),), (('a', 1), ('a', 3)), (('a', 3), ('a', 1))]
+    b_opts = [(), (('b', None),), (('b', 0),), (('b', 2),)]
+    c_opts = [(), (('c', None),), (('c', 2),)]
+    n_opts = [(), ((None, -2),), ((None, 0),), ((None, 1),), ((None, 4),), ((None, 1), (None, 4))]
+    recs = [{}, {'a': 1}, {'a': 3}, {'b': 2}, {'a': 1, 'b': 2}, {'b': 2, 'a': 3}, {'a': 3, 'b': 2}]
+    bad = []
+    n = 0
+    try:
+        for ao in a_opts:
+            for bo in b_opts:
+                for co in c_opts:
+                    for no in n_opts:
+                        flat = ao + bo + co + no
+                        # two shapes of the same specification: one list per entry (repeated -maxwarn) / all in one list
+                        for specifications in ([[e] for e in flat], [list(flat)] if flat else [[]]):
+                            for rec in recs:
+                                for errors in (0, 2):
+                                    n += 1
+                                    total_above = sum(rec.values()) + errors
+                                    counts = {30: dict(rec)}
+                                    if errors:
+                                        counts[40] = {'general': errors}
+                                    env = {params[0] + '.counts': counts, params[0] + '.level': 30,
+                                           params[0] + '.number_of_counts_by': (lambda level=None, ta=total_above: ta),
+                                           params[1]: specifications, params[2]: 30, 'logging.WARNING': 30}
+                                    got = ip.call(fn.body, env)
+                                    want = _spec_leftover(rec, errors, specifications)
+                                    if got != want and len(bad) < 4:
+                                        bad.append('records {} + {} error(s), -maxwarn {}: {} left (statement: {})'.format(rec, errors, specifications, got, want))
+    except ip.Unsupported as err:
+        bad = ['outside the interpretable fragment: {}'.format(err)]
+    except (TypeError, KeyError, AttributeError, ValueError) as err:
+        bad = ['the interpreted function fails on a grid point: {}: {}'.format(type(err).__name__, err)]
+    ck.extra['leftover_table_cases'] = n
+    ck.ob('DT-leftover', mod.loc(fn), not bad, 'ignore_warnings_and_count, interpreted as a whole over {} (records, specifications) cases (named waivers, limits incl. 0 and negative, '
+          'repeated limits, blanket, absent types, errors, both table orders), leaves exactly what the statement says{}'.format(n, '' if not bad else ' -- ' + ' || '.join(bad)),
+          key='DT-leftover|whole-function')
+
+
 def run(ck):
     deduction_obligations(ck)
+    whole_function_table(ck)
     # the -maxwarn parser
     cli = ck.index.mod(CLI)
     mw = cli.func('maxwarn')
